@@ -66,6 +66,7 @@ type interpreter struct {
 	fnSeen             map[*ssa.Function]int
 	onceDone           map[*value]bool
 	syncMaps           map[*value]*omap
+	crcAcc             map[*value][]value // bytes written so far to each hash/crc64 digest
 }
 
 type deferred struct {
